@@ -3,31 +3,46 @@
 use core::mem::ManuallyDrop as MD;
 use jaq_json::{Num, Val};
 
+/// the integer a number value denotes, in either representation
+fn int_value(n: &Num) -> Option<i128> {
+    match n {
+        Num::Int(i) => Some(*i as i128),
+        Num::BigInt(b) => i128::try_from(&**b).ok(),
+        _ => None,
+    }
+}
+
 /// decode side, one harness per header variant (a symbolic discriminant would make symbolic
 /// execution walk the array / map arms): the real `parse` maps `Negative(n)` to the integer
-/// `-1 - n` and `Positive(n)` to `n`, as a machine integer whenever it fits
+/// `-1 - n` and `Positive(n)` to `n` (RFC 8949, major types 1 and 0) for **every** 64-bit
+/// argument - as a machine integer whenever it fits, else as the big integer of that value
 #[kani::proof]
-#[kani::unwind(3)]
+#[kani::unwind(6)]
 fn c14_cbor_decode_negative() {
     let n: u64 = kani::any();
-    // stay inside the machine-integer range so that num-bigint is not entered
-    kani::assume(n <= i64::MAX as u64);
     kani::cover!(n == i64::MAX as u64);
+    kani::cover!(n == u64::MAX);
     let v = MD::new(crate::read::cbor::verif_parse_int_header(true, n));
     match &*v {
-        Some(Val::Num(Num::Int(i))) => assert!(*i as i128 == -1 - n as i128),
+        Some(Val::Num(x)) => {
+            assert!(int_value(x) == Some(-1 - n as i128));
+            assert!(matches!(x, Num::Int(_)) == (n <= i64::MAX as u64));
+        }
         _ => assert!(false),
     }
 }
 #[kani::proof]
-#[kani::unwind(3)]
+#[kani::unwind(6)]
 fn c14_cbor_decode_positive() {
     let n: u64 = kani::any();
-    kani::assume(n <= i64::MAX as u64);
     kani::cover!(n == i64::MAX as u64);
+    kani::cover!(n == u64::MAX);
     let v = MD::new(crate::read::cbor::verif_parse_int_header(false, n));
     match &*v {
-        Some(Val::Num(Num::Int(i))) => assert!(*i as i128 == n as i128),
+        Some(Val::Num(x)) => {
+            assert!(int_value(x) == Some(n as i128));
+            assert!(matches!(x, Num::Int(_)) == (n <= i64::MAX as u64));
+        }
         _ => assert!(false),
     }
 }
